@@ -63,6 +63,7 @@ static CO_ERR COTEmcyHistRead(struct CO_OBJ_T *obj, struct CO_NODE_T *node, void
 {
     const CO_OBJ_TYPE *uint32 = CO_TUNSIGNED32;
     const CO_OBJ_TYPE *uint8 = CO_TUNSIGNED8;
+    const uint32_t empty = 0;
     CO_ERR   result = CO_ERR_TYPE_RD;
     CO_OBJ  *subObj;
     CO_DICT *cod;
@@ -91,7 +92,7 @@ static CO_ERR COTEmcyHistRead(struct CO_OBJ_T *obj, struct CO_NODE_T *node, void
             result = uint32->Read(subObj, node, buffer, size);
         } else {
             if ((sub < emcy->Hist.Max) && (size == COT_ENTRY_SIZE)) {
-                *((uint32_t *)buffer) = (uint32_t)0;
+                CO_BUF_SET(buffer, empty);
             }
         }
     }
